@@ -20,6 +20,9 @@ import (
 //	slots     nodes with very few pod slots
 //	constr    node labels / taints / selectors / affinities / pod (anti-)affinity
 func Generate(r *rand.Rand, profile string) *Scenario {
+	if profile == "unobs" {
+		return generateUnobstructed(r)
+	}
 	pick := func(vs ...int) int { return vs[r.Intn(len(vs))] }
 	chance := func(p float64) bool { return r.Float64() < p }
 	sc := &Scenario{Class: profile}
@@ -355,4 +358,79 @@ func decorate(r *rand.Rand, p *Pod, sc *Scenario) {
 	if chance(0.12) {
 		p.PodAff = append(p.PodAff, PodTerm{Key: "app", Val: []string{"x", "y"}[r.Intn(2)], Topo: []string{"host", "zone"}[r.Intn(2)]})
 	}
+}
+
+// generateUnobstructed builds members of the "unobstructed single-claimant class" of C05:
+// interchangeable nodes, interchangeable single-pod 1-GPU jobs, no constraints, no min-runtime, a
+// completely full cluster and exactly one pending job which either
+//   - (reclaim) belongs to a queue that stays within its deserved quota with it, while another
+//     queue runs preemptible pods above its deserved quota, or
+//   - (preempt) has strictly higher priority than a preemptible running job of its own queue
+//     (and its queue is at/over its quota so that reclaim does not apply first).
+// Such a job must be bound or nominated within one cycle.
+func generateUnobstructed(r *rand.Rand) *Scenario {
+	pick := func(vs ...int) int { return vs[r.Intn(len(vs))] }
+	sc := &Scenario{Class: "unobs"}
+	sc.Cfg = Cfg{Placement: []string{"binpack", "spread"}[r.Intn(2)], Consolidation: pick(0, 1), Signatures: pick(0, 1),
+		ConsReclaim: pick(0, 1), SatMult: pick(1000, 1200, 2000), Cycles: 1, Env: "closed", FullHier: 1}
+	nn := pick(1, 2, 2, 3)
+	g := pick(1, 2, 2)
+	for i := 0; i < nn; i++ {
+		sc.Nodes = append(sc.Nodes, Node{Name: fmt.Sprintf("n%d", i+1), Cpu: 16000, Mem: 64000, Pods: 110, Gpus: g, GpuMem: 40000, Ready: 1})
+	}
+	total := nn * g
+	reclaim := r.Intn(2) == 0
+	deep := r.Intn(3) == 0 // leaf queues under two departments instead of one
+	sc.Queues = append(sc.Queues, Queue{Name: "d1", Parent: 0, Prio: 100, GQ: -1, GL: -1, GW: 1, CQ: -1, CL: -1, MQ: -1, ML: -1})
+	parentB := 1
+	if deep {
+		sc.Queues = append(sc.Queues, Queue{Name: "d2", Parent: 0, Prio: 100, GQ: -1, GL: -1, GW: 1, CQ: -1, CL: -1, MQ: -1, ML: -1})
+		parentB = 2
+	}
+	if reclaim {
+		sc.Class = "unobs-reclaim"
+		// queue A: quota qa < what it runs (over quota); queue B: quota >= 1, runs nothing or within quota
+		over := total // A holds the whole cluster
+		qa := r.Intn(over)   // 0..over-1 GPUs deserved: A is above its quota
+		qb := 1 + r.Intn(2)  // B deserves 1..2 GPUs, holds 0
+		if qa+qb > total {
+			qa = total - qb
+			if qa < 0 {
+				qa = 0
+			}
+		}
+		sc.Queues = append(sc.Queues, Queue{Name: "qa", Parent: 1, Prio: 100, GQ: qa * 1000, GL: -1, GW: 1, CQ: -1, CL: -1, MQ: -1, ML: -1})
+		sc.Queues = append(sc.Queues, Queue{Name: "qb", Parent: parentB, Prio: 100, GQ: qb * 1000, GL: -1, GW: 1, CQ: -1, CL: -1, MQ: -1, ML: -1})
+		qaIdx, qbIdx := len(sc.Queues)-1, len(sc.Queues)
+		k := 0
+		for n := 0; n < nn; n++ {
+			for d := 0; d < g; d++ {
+				k++
+				sc.Jobs = append(sc.Jobs, Job{Name: fmt.Sprintf("j%d", k), Queue: qaIdx, Prio: 50, Preempt: 1, Min: 1, Age: 3600 + 60*k, LastStart: 36000})
+				sc.Pods = append(sc.Pods, Pod{Name: fmt.Sprintf("j%d-p1", k), Job: k, Cpu: 500, Mem: 500, Gpu: 1, Phase: "R", Node: n + 1})
+			}
+		}
+		k++
+		sc.Jobs = append(sc.Jobs, Job{Name: fmt.Sprintf("j%d", k), Queue: qbIdx, Prio: pick(50, 75), Preempt: pick(0, 1), Min: 1, Age: 600, LastStart: -1})
+		sc.Pods = append(sc.Pods, Pod{Name: fmt.Sprintf("j%d-p1", k), Job: k, Cpu: 500, Mem: 500, Gpu: 1, Phase: "P"})
+	} else {
+		sc.Class = "unobs-preempt"
+		// one queue holding the whole cluster with preemptible low-priority jobs; quota = 0 so that the
+		// pending job (same queue, higher priority) cannot reclaim and must preempt
+		sc.Queues = append(sc.Queues, Queue{Name: "qa", Parent: 1, Prio: 100, GQ: 0, GL: -1, GW: 1, CQ: -1, CL: -1, MQ: -1, ML: -1})
+		qaIdx := len(sc.Queues)
+		k := 0
+		for n := 0; n < nn; n++ {
+			for d := 0; d < g; d++ {
+				k++
+				sc.Jobs = append(sc.Jobs, Job{Name: fmt.Sprintf("j%d", k), Queue: qaIdx, Prio: 50, Preempt: 1, Min: 1, Age: 3600 + 60*k, LastStart: 36000})
+				sc.Pods = append(sc.Pods, Pod{Name: fmt.Sprintf("j%d-p1", k), Job: k, Cpu: 500, Mem: 500, Gpu: 1, Phase: "R", Node: n + 1})
+			}
+		}
+		k++
+		sc.Jobs = append(sc.Jobs, Job{Name: fmt.Sprintf("j%d", k), Queue: qaIdx, Prio: 75, Preempt: 1, Min: 1, Age: 600, LastStart: -1})
+		sc.Pods = append(sc.Pods, Pod{Name: fmt.Sprintf("j%d-p1", k), Job: k, Cpu: 500, Mem: 500, Gpu: 1, Phase: "P"})
+	}
+	sc.Normalize()
+	return sc
 }
